@@ -77,7 +77,7 @@ macro "a_tac" : tactic => `(tactic| (
   (repeat' split at st)
   all_goals (first | (simp at st; done) | skip)
   all_goals (simp only [Option.some.injEq] at st; subst st)
-  all_goals (constructor <;> first | assumption | (simp only [upd, lockS, unlockS, newHelper, relocate, K.cont, SetObl, OpObl] at * <;>
+  all_goals (constructor <;> first | assumption | (simp only [upd, lockS, unlockS, newHelper, relocate, nestOn, csOn, nestOff, K.cont, SetObl, OpObl] at * <;>
     grind [upd, relocate, TOk, LocOk, TPc.pendId, GK.id?, Loc.invoked, → mem_of_head?, → mem_of_mem_tail', nodup_tail', head?_notin_tail, → ne_nil_of_head?, mem_tail_or_head]))))
 
 theorem inva_rlock (c : Cfg) {s s' : State} (h : InvA c s) (t : _)
